@@ -231,7 +231,7 @@ func usedClasses(r *runlog.R, used map[string]int) {
 	sort.Strings(labels)
 	for _, k := range labels {
 		switch k {
-		case "narrow int", "float32", "named primitive", "pointer to primitive", "nil *int", "map[string]interface{}", "[]interface{}":
+		case "pointer to primitive", "nil *int", "map[string]interface{}", "[]interface{}":
 		default:
 			r.Class("repr:" + k)
 		}
@@ -288,11 +288,13 @@ func drawReprs(t *rapid.T, tr *gen.Tree) {
 	for _, n := range nodes {
 		if n.IsCont() {
 			n.R = n.R%16 + 16*rapid.IntRange(0, 3).Draw(t, "ptr")
-			if n.K == "obj" && (n.R%8 == 2 || n.R%8 == 7) {
+			st := n.K == "obj" && (n.R%8 == 2 || n.R%8 == 7)
+			if st {
 				n.R += 64 * drawLayout(t)
 			}
+			n.R |= drawHigh(t, st)
 		} else {
-			n.R = rapid.IntRange(0, 63).Draw(t, "primrepr")
+			n.R = drawPrimRepr(t, n)
 		}
 	}
 }
@@ -306,14 +308,21 @@ func genRepr(t *rapid.T) ReprCase {
 	} else {
 		c.T = gen.GenObj(t, cfg, cfg.Depth)
 	}
+	enrich(t, c.T)
 	drawReprs(t, c.T)
 	n := rapid.IntRange(1, 2).Draw(t, "nalts")
 	for i := 0; i < n; i++ {
 		alt := rapid.SliceOfN(rapid.IntRange(0, 63), 1, 12).Draw(t, "alt")
 		for j, r := range alt {
-			if r%8 == 2 || r%8 == 7 {
+			// (an entry applies to containers and primitives alike: bits 6-18 are
+			// the layout of a struct or the kind selector of a primitive)
+			st := r%8 == 2 || r%8 == 7
+			if st {
 				alt[j] += 64 * drawLayout(t)
+			} else {
+				alt[j] += rapid.IntRange(0, 15).Draw(t, "primsel") << primSelShift
 			}
+			alt[j] |= drawHigh(t, st)
 		}
 		c.Alts = append(c.Alts, alt)
 	}
@@ -426,9 +435,10 @@ func runRepr(c ReprCase, r *runlog.R) error {
 	}
 	kinds := 0
 	for k := range used {
-		switch k {
-		case "narrow int", "float32", "named primitive", "pointer to primitive", "nil *int", "nil map", "nil slice":
-		case "map[string]interface{}", "[]interface{}":
+		switch {
+		case k == "pointer to primitive", k == "nil *int", k == "nil map", k == "nil slice":
+		case strings.HasPrefix(k, "prim: "), strings.HasPrefix(k, "nil: "), strings.HasPrefix(k, "chain: "):
+		case k == "map[string]interface{}", k == "[]interface{}":
 		default:
 			kinds++
 		}
